@@ -527,16 +527,13 @@ func (b *BaseStore) Load(ctx context.Context, amount int) error {
 	progress := make(chan ifacelog.IPFSLogEntry)
 	defer close(progress)
 	go func() {
-		for {
-			var entry ifacelog.IPFSLogEntry
-			select {
-			case <-ctx.Done():
-				return
-			case entry = <-progress:
-				if entry == nil {
-					// should not happen
-					return
-				}
+		// keep receiving until the channel is closed (when every head has been
+		// handled): the fetcher blocks on every entry it reports, so leaving
+		// early, e.g. when ctx is cancelled, would leave it stuck for ever
+		for entry := range progress {
+			if entry == nil {
+				// should not happen
+				continue
 			}
 
 			b.recalculateReplicationStatus(entry.GetClock().GetTime())
